@@ -35,6 +35,7 @@ type Case struct {
 	Hops, Secs int    `json:",omitempty"` // header fields the cascade does not look at
 	RespFlag   string `json:",omitempty"` // what the plugin does to the REPLY's broadcast bit: "" | "set" | "clear"
 	Fresh      bool   `json:",omitempty"` // the plugin returns a newly built reply object instead of the one it was handed
+	ReqType    int    `json:",omitempty"` // DHCP message type of the request if not DISCOVER/REQUEST (INFORM 8, DECLINE 4, RELEASE 7, ...)
 }
 
 // opt82 builds relay-agent-information variants: whatever sub-options a relay adds, the
@@ -87,6 +88,9 @@ func request(c Case) []byte {
 	mt := byte(1)
 	if c.Reply != "OFFER" {
 		mt = 3
+	}
+	if c.ReqType != 0 {
+		mt = byte(c.ReqType)
 	}
 	p.Opts = []pkt.Opt4{{Code: 53, Data: []byte{mt}}}
 	if c.Opt82 != "" {
@@ -283,6 +287,20 @@ func run(r *ev.Run) {
 									eval(r, c)
 								}
 							}
+						}
+					}
+				}
+			}
+		}
+	}
+	// other request types: whatever the server chooses to answer is addressed by the same cascade
+	if len(idx) > 0 {
+		for _, rt := range []int{8, 4, 7, 2, 5, 13} {
+			for _, gi := range []string{"0.0.0.0", "10.1.2.3"} {
+				for _, ci := range []string{"0.0.0.0", "10.0.7.50"} {
+					for _, bc := range []bool{false, true} {
+						for _, rep := range []string{"ACK", "NAK"} {
+							eval(r, Case{GI: gi, CI: ci, YI: "10.0.0.50", Bcast: bc, Reply: rep, Oob: idx[0], HLen: 6, ReqType: rt})
 						}
 					}
 				}
